@@ -218,32 +218,46 @@ type vsCase struct {
 	unknownV1     bool
 	payload       []byte
 	name          string
+	fanout        int // dial addresses of the upstream (0 = 1)
 }
 
 func TestVerifC12Send(t *testing.T) {
 	out := vOpen()
 	defer out.Close()
 	r := vNewRng(vSeed() + 12)
-	up := vsStartUpstream()
-	defer up.ln.Close()
+	// three loopback backends; an upstream with k dial addresses fans the client's stream out to
+	// backends 0..k-1, and EVERY one of them must receive its own PROXY header first
+	var ups []*vsUp
+	for i := 0; i < 3; i++ {
+		u := vsStartUpstream()
+		defer u.ln.Close()
+		ups = append(ups, u)
+	}
 
 	ctx, cancel := caddy.NewContext(caddy.Context{Context: context.Background()})
 	defer cancel()
-	handlers := map[int]*Handler{}
+	handlers := map[[2]int]*Handler{}
 	for v, s := range map[int]string{0: "", 1: "v1", 2: "v2"} {
-		h := &Handler{ProxyProtocol: s, Upstreams: UpstreamPool{&Upstream{Dial: []string{"tcp/" + up.ln.Addr().String()}}}}
-		if err := h.Provision(ctx); err != nil {
-			t.Fatal(err)
+		for fan := 1; fan <= 3; fan++ {
+			var dial []string
+			for i := 0; i < fan; i++ {
+				dial = append(dial, "tcp/"+ups[i].ln.Addr().String())
+			}
+			h := &Handler{ProxyProtocol: s, Upstreams: UpstreamPool{&Upstream{Dial: dial}}}
+			if err := h.Provision(ctx); err != nil {
+				t.Fatal(err)
+			}
+			handlers[[2]int{v, fan}] = h
 		}
-		handlers[v] = h
 	}
-	defer handlers[0].Cleanup()
+	defer handlers[[2]int{0, 3}].Cleanup()
 	pp := &l4proxyprotocol.Handler{}
 	if err := pp.Provision(ctx); err != nil {
 		t.Fatal(err)
 	}
 
 	seen := map[string]bool{}
+	var perPeer func(c vsCase, pi, fan int, got []byte, called bool, err error, segName string)
 	run := func(c vsCase, segs [][]byte, segName string) {
 		in, cl := net.Pipe()
 		cx := layer4.WrapConnection(&vsConn{Conn: in, remote: c.remote, local: c.local}, []byte{}, zap.NewNop())
@@ -260,7 +274,11 @@ func TestVerifC12Send(t *testing.T) {
 			}
 			cl.Close()
 		}()
-		h := handlers[c.version]
+		fan := c.fanout
+		if fan == 0 {
+			fan = 1
+		}
+		h := handlers[[2]int{c.version, fan}]
 		var err error
 		called := false
 		proxyH := layer4.HandlerFunc(func(d *layer4.Connection) error { called = true; return h.Handle(d, nil) })
@@ -271,25 +289,33 @@ func TestVerifC12Send(t *testing.T) {
 		}
 		in.Close()
 		<-done
-		var got []byte
+		gots := make([][]byte, fan)
 		if called && err == nil {
-			select {
-			case got = <-up.got:
-			case <-time.After(10 * time.Second):
-				t.Fatalf("upstream did not finish: %s", c.name)
+			for i := 0; i < fan; i++ {
+				select {
+				case gots[i] = <-ups[i].got:
+				case <-time.After(10 * time.Second):
+					t.Fatalf("upstream peer %d did not finish: %s", i, c.name)
+				}
 			}
 		}
+		for pi := 0; pi < fan; pi++ {
+			perPeer(c, pi, fan, gots[pi], called, err, segName)
+		}
+	}
+	perPeer = func(c vsCase, pi, fan int, got []byte, called bool, err error, segName string) {
 		stream := append(append([]byte{}, c.inHeader...), c.payload...)
 		obs := "None"
 		if called && err == nil {
 			obs = "(Some " + cHex(got) + ")"
 		}
+		// the model's upstream_bytes is what EACH peer of the upstream receives
 		term := fmt.Sprintf("CSend %s %s %s %s %s %s", vsN(c.version), cBool(c.recv), vsAddr(c.remote), vsAddr(c.local), cHex(stream), obs)
 		if !seen[term] {
 			seen[term] = true
-			out.Case(term, fmt.Sprintf("send/v%d/%s", c.version, c.name), c.version > 0, nil)
+			out.Case(term, fmt.Sprintf("send/v%d/fan%d/%s", c.version, fan, c.name), c.version > 0, map[string]any{"peer_index": pi, "peers": fan})
 		}
-		inp := map[string]any{"version": c.version, "case": c.name, "peer": c.remote.String(), "local": c.local.String(), "received_header": fmt.Sprintf("%q", c.inHeader),
+		inp := map[string]any{"version": c.version, "case": c.name, "upstream_peer": fmt.Sprintf("%d of %d", pi+1, fan), "peer": c.remote.String(), "local": c.local.String(), "received_header": fmt.Sprintf("%q", c.inHeader),
 			"payload_len": len(c.payload), "segmentation": segName, "upstream_first_bytes": fmt.Sprintf("%q", got[:min(len(got), 120)])}
 		if !called || err != nil {
 			out.Fail("C12:send:not-relayed", fmt.Sprintf("the proxy handler did not relay the connection: %v", err), inp)
@@ -420,7 +446,7 @@ func TestVerifC12Send(t *testing.T) {
 					continue
 				}
 				k++
-				c := vsCase{version: ver, remote: p.r, local: p.l, name: p.name, payload: r.Bytes(sizes[k%len(sizes)])}
+				c := vsCase{version: ver, remote: p.r, local: p.l, name: p.name, payload: r.Bytes(sizes[k%len(sizes)]), fanout: 1 + (k/2)%3}
 				if recv >= 0 {
 					i := ins[recv]
 					c.recv, c.inHeader, c.declS, c.declD, c.unknownV1, c.name = true, i.b, i.s, i.d, i.unknownV1, p.name+"+"+i.name
@@ -454,7 +480,7 @@ func TestVerifC12Send(t *testing.T) {
 			a[0], b[0] = 0x20, 0x20
 			p = pair{"rnd6", &net.TCPAddr{IP: net.IP(a), Port: r.Intn(65536)}, &net.TCPAddr{IP: net.IP(b), Port: r.Intn(65536)}}
 		}
-		c := vsCase{version: ver, remote: p.r, local: p.l, name: p.name, payload: r.Bytes(r.Intn(200))}
+		c := vsCase{version: ver, remote: p.r, local: p.l, name: p.name, payload: r.Bytes(r.Intn(200)), fanout: 1 + i%3}
 		run(c, [][]byte{c.payload}, "whole")
 	}
 	out.Stat("send_cases", len(seen))
